@@ -48,6 +48,14 @@ theorem step5_in_range (c : Cfg) (o : Oracles) (obs H F out : List Rat) (a b : R
     (hobs : ∀ v ∈ obs, a ≤ v ∧ v ≤ b) (h : step5 c o obs H F = .ok out) : ∀ v ∈ out, a ≤ v ∧ v ≤ b :=
   step5_bounded_range c o obs H F out a b hm ha hb hab hobs h
 
+/-- the clip is needed for out-of-range input only: for quantiles inside `[a, b]` the four formulas of the bounded
+    method stay inside `[a, b]` by themselves (so a variant of the code without the final clip behaves identically on
+    the property's inputs) -/
+theorem step5_bounded_clip_noop_in_range (a b qO qH qF : Rat) (hO : a ≤ qO ∧ qO ≤ b) (hH : a ≤ qH ∧ qH ≤ b)
+    (hF : a ≤ qF ∧ qF ≤ b) : boundedTransfer a b qO qH qF = boundedRaw a b qO qH qF ∧
+    a ≤ boundedRaw a b qO qH qF ∧ boundedRaw a b qO qH qF ≤ b :=
+  ⟨boundedTransfer_clip_noop a b qO qH qF hO hH hF, boundedRaw_range a b qO qH qF hO hH hF⟩
+
 /-- tasskew-like settings with dyadic thresholds (`[0,1]`, thresholds `1/64`, `63/64`), non-parametric step 6 -/
 def skewCfg : Cfg :=
   { trendMethod := .bounded, nonparametricQm := true, detrending := false, lowerBound := .fin 0,
